@@ -557,7 +557,8 @@ def confirm_in_fresh_process(machine, path):
 
 def digests_for(machine, seed, indices, jobs):
     machine.master_seed = seed
-    b = Batch(machine, seed, 0, jobs)
+    open_known = [e for e in load_known(machine.pid) if e.get("status") == "open"]
+    b = Batch(machine, seed, 0, jobs, unsteered_every=machine.unsteered_every if open_known else 0)
     out = {}
     for i in indices:
         case = b.make_case(i)
